@@ -46,6 +46,10 @@ def findSequencesOnDisk (d : DirSpec) (arg : Bytes) (o : ListOpts) : Except Err 
 def listFiles (d : DirSpec) (arg : Bytes) : Except Err (List Seq) :=
   scanDir d arg { single := true, hidden := false, style := .hash4 } none
 
+/-- the directory that is opened for a pattern: a pattern without a directory part names files of
+    the working directory (the `fix:` commits 0c87be1 / 0461a13) -/
+def openDir (d : Bytes) : Bytes := if d.isEmpty then ['.'] else d
+
 /-- `FindSequenceOnDiskPad(pattern, style, opts...)`: `lookup` maps the pattern's directory
     to its contents. `.ok none` = no match (also for an unparsable pattern). -/
 def findSequenceOnDisk (lookup : Bytes → DirSpec) (pattern : Bytes) (st : PadStyle)
@@ -53,7 +57,7 @@ def findSequenceOnDisk (lookup : Bytes → DirSpec) (pattern : Bytes) (st : PadS
   match Seq.parse st pattern with
   | .error _ => .ok none
   | .ok fs =>
-    match scanDir (lookup fs.dir) fs.dir { single := false, hidden := hidden, style := st } (some fs) with
+    match scanDir (lookup (openDir fs.dir)) (openDir fs.dir) { single := false, hidden := hidden, style := st } (some fs) with
     | .error e => .error e
     | .ok seqs =>
       let cands := seqs.filter fun s => s.base = fs.base ∧ s.ext = fs.ext
